@@ -492,3 +492,21 @@ Section Plan1.
     - constructor; [exact Hr | constructor].
   Qed.
 End Plan1.
+
+(** ** every hop (a step that is not directly below the root) is sent as a query, whatever the request is *)
+Lemma step_kinds_kind : forall root_kind d svc k p depth,
+  In (d, svc, k) (step_kinds root_kind depth p) -> k = kind_at root_kind d.
+Proof.
+  intros root_kind d svc k p. induction p using plan_ind'. intros depth Hin. simpl in Hin. destruct Hin as [Heq|Hin].
+  - inversion Heq; subst. reflexivity.
+  - induction H as [|x t Hx _ IHt]; [contradiction|]. apply in_app_or in Hin as [Hin|Hin].
+    + apply (Hx (S depth) Hin).
+    + apply IHt; exact Hin.
+Qed.
+
+Theorem hops_are_queries : forall root_kind p depth d svc k,
+  In (d, svc, k) (step_kinds root_kind depth p) -> d <> 1 -> k = "query".
+Proof.
+  intros root_kind p depth d svc k H Hd. rewrite (step_kinds_kind _ _ _ _ _ _ H).
+  unfold kind_at. destruct d as [|[|d]]; try reflexivity. contradiction.
+Qed.
